@@ -164,6 +164,208 @@ def propagation_guard_rule(chk, rid, ctx):
         chk.ob(rid, "propagation only when a parent context exists", ok, p, f"guards {[(u(t), pol) for t, pol in guards(p)]}")
 
 
+_A = "esrally/client/asynchronous.py"
+_F = "esrally/client/factory.py"
+_NODE_API = "perform_request"  # the method of the transport library's node interface that issues ONE wire request (AsyncTransport calls it once per attempt)
+_EXC_SIGNAL = "on_request_exception"  # aiohttp's trace signal for a request that fails BEFORE its response headers have arrived
+
+
+def _mentions(e, var: str, attrs) -> bool:
+    """does expression e read <var>.<attr> for one of attrs"""
+    return any(isinstance(n, ast.Attribute) and n.attr in attrs and isinstance(n.value, ast.Name) and n.value.id == var for n in ast.walk(e))
+
+
+def timing_presence_table(node, cvn: str, defs: dict):
+    """Decide on VALUES under which (start, end) of the context object `cvn` the expression `node` is evaluated: the guard facts of node (explicit branches, conditional
+    expressions and the negated conditions of preceding guard clauses) that speak about the context's start / end are evaluated - seen through single-assignment locals - on every
+    combination of a missing (None), a falsy-but-legal (0.0) and an ordinary time. Returns ({(start, end): reached?}, [texts of the facts used]); raises CannotEval."""
+    from sa.minieval import Record
+
+    facts = []
+    for f in pat.fact_nodes(node):
+        fi = source.inline_node(f, defs)
+        if _mentions(fi, cvn, ("request_start", "request_end")):
+            facts.append(fi)
+    table = {}
+    for s in (None, 0.0, 5.0):
+        for e in (None, 0.0, 7.0):
+            env = {cvn: Record(request_start=s, request_end=e)}
+            table[(s, e)] = all(bool(ev(f, dict(env))) for f in facts)
+    return table, [u(f) for f in facts]
+
+
+def _holder_names(mod) -> set:
+    """names under which the request context holder (context.RequestContextHolder or a class of `mod` deriving from it) can be addressed in module `mod`"""
+    names = {k for k, v in mod.imports.items() if v == "esrally.client.context.RequestContextHolder"}
+    grew = True
+    while grew:
+        grew = False
+        for c in mod.classes():
+            if c.name not in names and any(last_attr(b) in names for b in c.bases):
+                names.add(c.name)
+                grew = True
+    return names
+
+
+def _end_recorders(repo):
+    """(zero-argument recorders, one-argument merges): holder methods that stamp the END of a wire request - by data flow: a merge stores the context's 'request_end' from its
+    parameter; a recorder hands a monotonic clock read to such a merge."""
+    ctx = repo.module(_C)
+    hm = ctx.methods(ctx.cls("RequestContextHolder"))
+    merges = {nm for nm, f in hm.items() if any(isinstance(n, ast.Assign) and isinstance(n.targets[0], ast.Subscript) and source.is_const(n.targets[0].slice, "request_end") for n in walk_body(f))}
+    recs = {nm for nm, f in hm.items() if any(isinstance(n, ast.Call) and last_attr(n.func) in merges and len(n.args) == 1
+                                               and pat.is_(source.inline_node(n.args[0], local_defs(f)), "time.perf_counter()") for n in walk_body(f))}
+    if not merges or not recs:
+        raise AnchorMissing("RequestContextHolder: no method records the end of a wire request (store of 'request_end' / clock read handed to it)")
+    return recs, merges
+
+
+_NODE_FAILURES = ("elastic_transport.TransportError",)  # root of what the library's node raises for a failed wire request (ConnectionTimeout, ConnectionError, TlsError, ...)
+
+
+def _absorbed_transport_failures(repo, hier) -> list:
+    """exception classes of a failed WIRE request that still yield a sample: the library's node-level failure root(s), provided an absorbing handler of the executor's
+    execute_single catches them by the parsed library hierarchy (an exception that is not absorbed ends the task - no timing is recorded for it at all)."""
+    from sa.exc import handler_type_names
+
+    drv = repo.module(_D)
+    es = drv.func("execute_single")
+    g = cfg_of(es)
+    out = []
+    for t in (n for n in walk_body(es) if isinstance(n, ast.Try)):
+        for h in t.handlers:
+            if not any(g.exit.id in g.reachable([x]) for x in g.by_ast.get(id(h), [])):
+                continue  # the handler raises on every path
+            out += [c for c in _NODE_FAILURES if c not in out and hier.catches(handler_type_names(h, drv), c)]
+    if not out:
+        raise AnchorMissing("execute_single: no absorbing handler for the transport-level failure classes (which failed wire requests still produce a sample?)")
+    return out
+
+
+def node_failure_end(repo) -> dict:
+    """How the async HTTP node of the client records the END of a wire request that FAILS. aiohttp signals `on_request_exception` only until the response headers have arrived;
+    a request that fails later (timeout / disconnect while elastic_transport reads the body) is seen by nobody but the node's own perform_request. Decided on the CFG of the
+    node class's perform_request override, per exception class C of a failed wire request that still yields a sample: the first interceptor of C among the exceptional
+    successors of the delegating call (handlers in order, by the library exception hierarchy; a finally block; else the function's raise exit) must lead through an end-recorder
+    call of the request context holder on every path (attempted unconditionally), and must not complete normally (the failure still propagates).
+    Returns {"cls", "method", "site", "rows": [(C, recorded, propagates, detail)], "ok": all recorded}; method None: the node class does not override perform_request."""
+    from sa.exc import Hierarchy, handler_type_names
+
+    if getattr(repo, "_c18_node_failure_end", None) is not None:
+        return repo._c18_node_failure_end
+    mod = repo.module(_A)
+    ncs = {n.value.id for n in ast.walk(mod.tree) if isinstance(n, ast.keyword) and n.arg == "node_class" and isinstance(n.value, ast.Name)}
+    cands = [c for c in mod.classes() if c.name in ncs]
+    if len(cands) != 1:
+        raise AnchorMissing(f"{_A}: the node class handed to the transport (node_class=<Class>) could not be identified ({sorted(ncs)})")
+    ncls = cands[0]
+    hier = Hierarchy()
+    classes = _absorbed_transport_failures(repo, hier)
+    pr = mod.methods(ncls).get(_NODE_API)
+    res = {"cls": ncls, "method": pr, "site": pr if pr is not None else ncls, "rows": [], "ok": False}
+    if pr is None:
+        res["rows"] = [(c, False, True, f"{ncls.name} does not override {_NODE_API}: a failure after the response headers is seen by no rally code") for c in classes]
+        repo._c18_node_failure_end = res
+        return res
+    dels = [n for n in walk_body(pr) if isinstance(n, ast.Call) and isinstance(n.func, ast.Attribute) and n.func.attr == _NODE_API
+            and ((isinstance(n.func.value, ast.Call) and dotted(n.func.value.func) == "super") or last_attr(n.func.value) in {last_attr(b) for b in ncls.bases})]
+    if len(dels) != 1:
+        raise AnchorMissing(f"{_A}: {ncls.name}.{_NODE_API} does not delegate exactly once to the library's {_NODE_API} ({len(dels)} delegating call(s))")
+    recs, merges = _end_recorders(repo)
+    holders = _holder_names(mod)
+    ends = [n for n in walk_body(pr) if isinstance(n, ast.Call) and isinstance(n.func, ast.Attribute) and last_attr(n.func.value) in holders
+            and ((n.func.attr in recs and not n.args) or (n.func.attr in merges and len(n.args) == 1 and pat.is_(source.inline_node(n.args[0], local_defs(pr)), "time.perf_counter()")))]
+    g = cfg_of(pr)
+    end_nodes = [x for c in ends for x in g.nodes_of(c)]
+    dn = g.node_of(dels[0])
+    exc_succ = [g.nodes[y] for (y, lab) in g.succ[dn.id] if not g.normal_edge(dn.id, y, lab)]  # inner-to-outer, handlers of one try in source order
+
+    def edge_ok(x, y, lab):  # entering `with [contextlib.]suppress(...)` does not fail: its exception edge is not a way around the call it protects
+        nx = g.nodes[x]
+        return not (nx.kind == "with" and not g.normal_edge(x, y, lab) and all(isinstance(i.context_expr, ast.Call) and last_attr(i.context_expr.func) == "suppress" for i in nx.ast.items))
+
+    for c in classes:
+        first = None
+        for x in exc_succ:
+            if x.kind == "except" and not hier.catches(handler_type_names(x.ast, mod), c):
+                continue
+            first = x
+            break
+        if first is None or first is g.raise_exit:
+            res["rows"].append((c, False, True, f"a {c} raised by the wire request leaves {_NODE_API} without passing any handler"))
+            continue
+        away = g.reachable([first], avoid=end_nodes, edge_ok=edge_ok)  # what the failure can reach without attempting an end-recorder call
+        recorded = bool(end_nodes) and g.exit.id not in away and g.raise_exit.id not in away
+        propagates = g.exit.id not in g.reachable([first])
+        how = f"except {u(first.ast.type) if first.ast.type is not None else ''}".strip() if first.kind == "except" else "finally"
+        pth = None
+        if not recorded:  # for the report prefer a path on which nothing but an explicit `raise` raises
+            for eo in (lambda x, y, lab: edge_ok(x, y, lab) and not lab.startswith("exc"), edge_ok):
+                pth = pth or g.find_path(first, g.raise_exit, avoid=end_nodes, edge_ok=eo) or g.find_path(first, g.exit, avoid=end_nodes, edge_ok=eo)
+        res["rows"].append((c, recorded, propagates, f"intercepted by `{how}` at line {getattr(first.ast, 'lineno', '?')}; {len(ends)} end-recorder call(s)"
+                            + ("" if recorded else f"; path without one: {' '.join(g.describe_path(pth)) if pth else '?'}")))
+    res["ok"] = all(r[1] for r in res["rows"])
+    repo._c18_node_failure_end = res
+    return res
+
+
+def trace_hook_table(chk, rid, repo):
+    """The signals that start / stop the service-time clock of ONE wire request (owned by C18, shared with C04/O4.2): the start callback is registered for aiohttp's request start
+    only; the stop callback for every response chunk (so the LAST chunk counts) and for request end; no request-side signal stops the clock; and a wire request that FAILS has
+    its end recorded unconditionally by at least one of (the exception trace hook, the node-level perform_request handler). Since F39 the node-level handler records the end of
+    every failed request (before or after the headers), so a conditional / absent exception hook is behaviour-preserving as long as that handler is in place; without it the
+    exception hook must be the plain stop callback."""
+    fac = repo.module(_F)
+    chk.use(fac, repo.module(_A))
+    f = fac.methods(fac.cls("EsClientFactory")).get("create_async")
+    if f is None:
+        raise AnchorMissing("EsClientFactory.create_async")
+    tc = [n for n in walk_body(f) if isinstance(n, ast.Assign) and isinstance(n.value, ast.Call) and last_attr(n.value.func) == "TraceConfig" and isinstance(n.targets[0], ast.Name)]
+    if not tc:
+        raise AnchorMissing("aiohttp.TraceConfig() in create_async")
+    tv = tc[0].targets[0].id
+    role = {}
+    for d in walk_body(f):
+        if isinstance(d, (ast.AsyncFunctionDef, ast.FunctionDef)):
+            called = {last_attr(c.func) for c in ast.walk(d) if isinstance(c, ast.Call)}
+            # a callback has a role only if its body is the single unconditional call (docstring / logging aside)
+            body_ = [st_ for st_ in d.body if not (isinstance(st_, ast.Expr) and isinstance(st_.value, ast.Constant)) and not is_logging_stmt(st_)]
+            plain = len(body_) == 1 and isinstance(body_[0], ast.Expr) and isinstance(body_[0].value, (ast.Call, ast.Await))
+            if "on_request_start" in called and "on_request_end" not in called:
+                role[d.name] = "start" if plain else "conditional start"
+            elif "on_request_end" in called and "on_request_start" not in called:
+                role[d.name] = "stop" if plain else "conditional stop"
+    table = {}
+    for n in walk_body(f):
+        if isinstance(n, ast.Call) and last_attr(n.func) == "append" and isinstance(n.func.value, ast.Attribute) and isinstance(n.func.value.value, ast.Name) and n.func.value.value.id == tv and n.args:
+            table.setdefault(n.func.value.attr, []).append(role.get(u(n.args[0]), u(n.args[0])))
+    try:
+        nf = node_failure_end(repo)
+        node_ok = nf["ok"]
+        node_detail = "records it unconditionally" if node_ok else "; ".join(r[3] for r in nf["rows"] if not r[1])[:200]
+    except AnchorMissing as e:  # the node-level handler cannot be located: only the trace hook can vouch for the failure path
+        node_ok, node_detail = False, f"not located ({e})"
+    want = {"on_request_start": ["start"], "on_response_chunk_received": ["stop"], "on_request_end": ["stop"], _EXC_SIGNAL: ["stop"]}
+    for sig in sorted(set(want) | set(table)):
+        got = table.get(sig, [])
+        ok = (got == want[sig]) if sig in want else not any(r.endswith(("start", "stop")) for r in got)
+        detail = f"registered: {got or 'nothing'}"
+        if sig == _EXC_SIGNAL:
+            # at least one of the two recorders of a failed request's end is unconditional; with the node-level handler in place the hook may be conditional or absent,
+            # but nothing other than a stop callback may hang on the signal
+            ok = ok or (node_ok and all(r in ("stop", "conditional stop") for r in got))
+            detail += f"; node-level {_NODE_API} handler: {node_detail}"
+        chk.ob(rid, f"trace signal {sig} -> {want.get(sig, ['(nothing)'])[0]} the service-time clock", ok, tc[0], detail + ("" if ok else
+               (" — the clock stops before the response body has arrived" if sig not in want and "stop" in got else
+                ((" — neither the exception hook nor the node-level handler records the end of a failed request unconditionally" if not node_ok else
+                  " — something other than the stop callback hangs on the failure signal") if sig == _EXC_SIGNAL else
+                 " — the span no longer ends with the last response chunk / an error"))),
+               key=f"{_F}:EsClientFactory.create_async:trace:{sig}")
+    used = [n for n in walk_body(f) if isinstance(n, ast.keyword) and n.arg == "trace_config" and u(n.value) == tv]
+    anyuse = any(isinstance(n, ast.Name) and n.id == tv and isinstance(n.ctx, ast.Load) and not isinstance(source.parent(n), ast.Attribute) for n in walk_body(f))
+    chk.ob(rid, "the trace configuration is handed to the client", bool(used) or anyuse, tc[0], "")
+
+
 def run(chk):
     repo = chk.repo
     ctx, run_, drv = repo.module(_C), repo.module(_R), repo.module(_D)
@@ -172,9 +374,10 @@ def run(chk):
         "Decides the merge operator and isolation skeleton: values propagated from a child context to its parent on exit are merged with a commutative, idempotent, "
         "None-safe operator (min for the start, max for the end) so that the exit order of concurrent children cannot matter; all timing state is reached through one "
         "ContextVar whose only set installs a fresh dict and is reset on exit; propagation only when a parent exists; the executor and the composite's per-operation wrapper "
-        "each enclose exactly one delegate call in their own context and read start/end from that context."
+        "each enclose exactly one delegate call in their own context and read start/end from that context; the wrapper computes over start/end only when both are present "
+        "(decided on None / 0.0 / ordinary values); a failed wire request's end is recorded by the node-level perform_request handler on every exceptional exit."
     )
-    chk.not_decided = "asyncio scheduling, aiohttp trace timing, clock behaviour."
+    chk.not_decided = "asyncio scheduling, aiohttp trace timing (which signals aiohttp emits when), clock behaviour."
     RCM = ctx.cls("RequestContextManager")
     RCH = ctx.cls("RequestContextHolder")
     hm = ctx.methods(RCH)
@@ -221,9 +424,21 @@ def run(chk):
         ok = f is not None and any(isinstance(n, ast.Call) and last_attr(n.func) == upd and n.args and pat.is_(source.inline_node(n.args[0], local_defs(f)), "time.perf_counter()") for n in walk_body(f))
         chk.ob("O18.1", f"{cb} records perf_counter() through {upd}", ok, f if f is not None else RCH, "")
 
-    from rules.C04 import trace_hook_table
-
     trace_hook_table(chk, "O18.1", repo)
+
+    # ---- O18.5 the end of a FAILED wire request (F39) -------------------------------------------------------------------------------------------
+    chk.rule("O18.5", "a wire request that fails has its end recorded when it fails, also after its response headers have arrived: the client's HTTP node overrides the library's "
+             "perform_request, and every transport-level failure that still yields a sample passes an unconditional end-recorder call of the request context holder before it "
+             "leaves the node, and still leaves it as a failure", 2,
+             "a request that times out / is disconnected while its body is read is recorded as ending when its HEADERS arrived (aiohttp's on_request_exception is only signalled "
+             "until then): the recorded end is not the latest end of all HTTP requests of the logical request")
+    nf = node_failure_end(repo)
+    nname = f"{nf['cls'].name}.{_NODE_API}"
+    for c, recorded, propagates, detail in nf["rows"]:
+        chk.ob("O18.5", f"a wire request failing with {c} ends (holder end-recorder, unconditional) before the failure leaves the node", recorded, nf["site"], detail,
+               key=f"{_A}:{nname}:end-on-failure:{c}")
+        chk.ob("O18.5", f"a wire request failing with {c} still fails (the node-level handler re-raises)", propagates, nf["site"],
+               "" if propagates else "a path through the interceptor completes normally: the failed request is reported as a response", key=f"{_A}:{nname}:failure-propagates:{c}")
 
     # ---- O18.2 isolation ---------------------------------------------------------------------------------------------------------------------
     chk.rule("O18.2", "all timing state is reached through one ContextVar; its only set installs a fresh dict; reset(token) on exit before propagation; propagation only when the token had an old value; "
@@ -342,6 +557,26 @@ def run(chk):
         reads = [n for n in walk_body(rt) if isinstance(n, ast.Attribute) and n.attr in ("request_start", "request_end") and isinstance(n.value, ast.Name) and n.value.id == cvn]
         ok = bool(reads) and bool(dels) and all(gr.dominated_by_nodes(gr.node_of(r), [gr.node_of(dels[0])]) for r in reads)
         chk.ob("O18.3", "wrapper: timings read after the delegate returned", ok, reads[0] if reads else rt, "")
+        # F38: a sub-request context without any wire request is a legal leaf of the context tree (get-async-search skips completed searches): its start and end are None.
+        # Every arithmetic on the context's start / end must be unreachable for a missing value, and reachable for every pair of present values (0.0 is a time, not 'missing').
+        arith = [n for n in walk_body(rt) if isinstance(n, ast.BinOp) and isinstance(n.op, (ast.Sub, ast.Add)) and _mentions(source.inline_node(n, rdefs), cvn, ("request_start", "request_end"))]
+        wkey = f"{_R}:RequestTiming.__call__"
+        if not arith:
+            chk.ob("O18.3", "wrapper: no arithmetic on a missing start / end (a sub-request that sent no wire request)", False, st[0] if st else rt,
+                   "no computation over the context's request_start / request_end found in the wrapper", key=f"{wkey}:timing-none-guard")
+        for n in arith:
+            try:
+                table, facts = timing_presence_table(n, cvn, rdefs)
+            except CannotEval as x:
+                chk.unknown("O18.3", f"wrapper: a guard of `{short(n, 50)}` that speaks about the context's start / end cannot be evaluated ({x})", n)
+                continue
+            crash = sorted((k for k, reached in table.items() if reached and None in k), key=lambda k: (sum(v is not None for v in k), str(k)))  # the all-missing row first
+            lost = sorted((k for k, reached in table.items() if not reached and None not in k), key=str)
+            chk.ob("O18.3", "wrapper: no arithmetic on a missing start / end (a sub-request that sent no wire request)", not crash, n,
+                   f"`{short(n, 50)}` under {facts or 'no guard on start / end'}" + ("" if not crash else f": evaluated for (start, end) = {crash[0]} -> TypeError, the task fails although "
+                                                                                   "the composite's other sub-requests were timed"), key=f"{wkey}:timing-none-guard")
+            chk.ob("O18.3", "wrapper: a sub-request that did send a request keeps its timing whatever the values (0.0 is a time)", not lost, n,
+                   f"`{short(n, 50)}` under {facts or 'no guard on start / end'}" + ("" if not lost else f": skipped for (start, end) = {lost[0]}"), key=f"{wkey}:timing-kept-when-present")
     CO = run_.cls("Composite")
     rs = run_.methods(CO).get("run_stream")
     if rs is None:
@@ -362,6 +597,17 @@ from sa.selftest import V  # noqa: E402
 
 _MIN = "            meta[\"request_start\"] = new_request_start if current is None else min(current, new_request_start)"
 _MAX = "            meta[\"request_end\"] = new_request_end if current is None else max(current, new_request_end)"
+_F38_IF = "            if start is not None and end is not None:\n"
+_F38_KEYS = ["\"operation\": params.get(\"name\"),", "\"operation-type\": params.get(\"operation-type\"),", "\"absolute_time\": absolute_time,", "\"request_start\": start,", "\"request_end\": end,",
+             "\"service_time\": end - start,"]
+_F38_DICT = "                result[\"dependent_timing\"] = {\n" + "".join(f"                    {k}\n" for k in _F38_KEYS) + "                }\n"
+_F38_DICT_FLAT = "            result[\"dependent_timing\"] = {\n" + "".join(f"                {k}\n" for k in _F38_KEYS) + "            }\n"
+_F39_EXCEPT = "        except BaseException:\n"
+_F39_COMMENT = ("            # aiohttp only signals `on_request_exception` until the response *headers* have arrived. A request that fails\n"
+                "            # later (timeout / disconnect while the body is read) ends now and not when its headers were received.\n")
+_F39_TAIL = "            try:\n                RequestContextHolder.on_request_end()\n            except LookupError:\n                pass\n            raise\n"
+_F39_BODY = _F39_COMMENT + _F39_TAIL
+_F39_METHOD = ("    async def perform_request(self, *args, **kwargs):\n        try:\n            return await super().perform_request(*args, **kwargs)\n" + _F39_EXCEPT + _F39_BODY + "\n")
 VARIANTS = [
     V("F7: first-start-wins", "break", _C, "        if new_request_start is not None:\n            current = meta.get(\"request_start\")\n" + _MIN, "        if \"request_start\" not in meta:\n            meta[\"request_start\"] = new_request_start", "O18.1"),
     V("F7: last-end-wins", "break", _C, "        if new_request_end is not None:\n            current = meta.get(\"request_end\")\n" + _MAX, "        meta[\"request_end\"] = new_request_end", "O18.1"),
@@ -376,7 +622,43 @@ VARIANTS = [
       "                total_ops, total_ops_unit, request_meta_data = await execute_single(runner, self.es, params, self.on_error)\n                with self.es[\"default\"].new_request_context() as request_context:\n                    request_start", "O18.3"),
     V("wrapper reads times before the delegate", "break", _R, "        with es[\"default\"].new_request_context() as request_context:\n            return_value = await self.delegate(es, params)\n", "        with es[\"default\"].new_request_context() as request_context:\n            start = request_context.request_start\n            return_value = await self.delegate(es, params)\n", "O18.3"),
     V("composite dispatch unwrapped", "break", _R, "                    runner = RequestTiming(runner_for(op_type))", "                    runner = runner_for(op_type)", "O18.3"),
+    # F38 (48adc37): the wrapper computes over start / end only when both are present
+    V("F38: textual revert (dependent_timing unguarded)", "break", _R, _F38_IF + _F38_DICT, _F38_DICT_FLAT, "O18.3"),
+    V("F38: guard on the start only", "break", _R, _F38_IF, "            if start is not None:\n", "O18.3"),
+    V("F38: truthiness guard (0.0 is a time)", "break", _R, _F38_IF, "            if start and end:\n", "O18.3"),
+    V("F38: either present", "break", _R, _F38_IF, "            if start is not None or end is not None:\n", "O18.3"),
+    # F39 (09d2ce8): the node-level perform_request records the end of a failed wire request
+    V("F39: textual revert (no perform_request override)", "break", _A, _F39_METHOD, "", "O18.5"),
+    V("F39: handler only for the client-side timeout", "break", _A, _F39_EXCEPT, "        except asyncio.TimeoutError:\n", "O18.5"),
+    V("F39: end kept only if the context has none yet", "break", _A, "                RequestContextHolder.on_request_end()\n",
+      "                if RequestContextHolder.request_context.get().get(\"request_end\") is None:\n                    RequestContextHolder.on_request_end()\n", "O18.5"),
+    V("F39: handler swallows the failure", "break", _A, "            except LookupError:\n                pass\n            raise\n", "            except LookupError:\n                pass\n", "O18.5"),
+    [V("F39 reverted AND exception hook conditional (benign C18-x6 is only benign with F39)", "break", _A, _F39_METHOD, "", "O18.1"),
+     V("", "break", _F, "        trace_config = aiohttp.TraceConfig()\n", "        async def on_request_exception(session, trace_config_ctx, params):\n"
+       "            if RallyAsyncElasticsearch.request_context.get().get(\"request_end\") is None:\n                RallyAsyncElasticsearch.on_request_end()\n\n"
+       "        trace_config = aiohttp.TraceConfig()\n"),
+     V("", "break", _F, "        trace_config.on_request_exception.append(on_request_end)", "        trace_config.on_request_exception.append(on_request_exception)")],
+    [V("exception hook dropped AND node handler conditional", "break", _A, "                RequestContextHolder.on_request_end()\n",
+       "                if RequestContextHolder.request_context.get().get(\"request_end\") is None:\n                    RequestContextHolder.on_request_end()\n", "O18.1"),
+     V("", "break", _F, "        trace_config.on_request_exception.append(on_request_end)\n", "")],
+    V("start callback hung on the exception signal", "break", _F, "        trace_config.on_request_exception.append(on_request_end)", "        trace_config.on_request_exception.append(on_request_start)", "O18.1"),
     # preserving
+    V("F38: negated disjunction", "keep", _R, _F38_IF, "            if not (start is None or end is None):\n"),
+    V("F38: guard clause", "keep", _R, _F38_IF + _F38_DICT, "            if start is None or end is None:\n                return result\n" + _F38_DICT_FLAT),
+    V("F38: no temporaries in the guard, operands swapped", "keep", _R, _F38_IF, "            if request_context.request_end is not None and request_context.request_start is not None:\n"),
+    V("F38: membership test", "keep", _R, _F38_IF, "            if None not in (start, end):\n"),
+    V("F38: nested ifs", "keep", _R, _F38_IF, "            if end is not None:\n              if start is not None:\n"),
+    V("F39: except Exception (every failure that yields a sample is an Exception)", "keep", _A, _F39_EXCEPT, "        except Exception:\n"),
+    V("F39: bare except, bound re-raise through the subclass holder", "keep", _A, _F39_EXCEPT + _F39_BODY,
+      "        except BaseException as e:\n            try:\n                RallyAsyncElasticsearch.on_request_end()\n            except LookupError:\n                pass\n            raise e\n"),
+    [V("F39: contextlib.suppress instead of try/except/pass", "keep", _A, "            try:\n                RequestContextHolder.on_request_end()\n            except LookupError:\n                pass\n",
+       "            with contextlib.suppress(LookupError):\n                RequestContextHolder.on_request_end()\n"),
+     V("", "keep", _A, "import asyncio\nimport json\n", "import asyncio\nimport contextlib\nimport json\n")],
+    [V("F39: clock read handed to the merge directly, result through a temporary", "keep", _A, "            return await super().perform_request(*args, **kwargs)\n" + _F39_EXCEPT + _F39_BODY,
+       "            response = await AiohttpHttpNode.perform_request(self, *args, **kwargs)\n            return response\n" + _F39_EXCEPT
+       + "            try:\n                RequestContextHolder.update_request_end(time.perf_counter())\n            except LookupError:\n                pass\n            raise\n"),
+     V("", "keep", _A, "import logging\nimport warnings\n", "import logging\nimport time\nimport warnings\n")],
+    V("benign C18-x6 shape: exception hook absent (node-level handler records the end)", "keep", _F, "        trace_config.on_request_exception.append(on_request_end)\n", ""),
     V("min via guarded assignment", "keep", _C, _MIN, "            if current is None or new_request_start < current:\n                meta[\"request_start\"] = new_request_start"),
     V("max via conditional expression", "keep", _C, _MAX, "            meta[\"request_end\"] = new_request_end if current is None else (new_request_end if new_request_end > current else current)"),
     V("is not MISSING", "keep", _C, "        if self.token.old_value != contextvars.Token.MISSING:", "        if self.token.old_value is not contextvars.Token.MISSING:"),
